@@ -48,4 +48,39 @@ example : ∃ (v : ℝ) (q q' : PDelta ℝ), q ≠ q' ∧
     deltaToTmunu Real.sqrt 0 1 2 3 4 v [q] = deltaToTmunu Real.sqrt 0 1 2 3 4 v [q'] :=
   ⟨0, ⟨0, 1, 0, 0, 0, 0⟩, ⟨0, 2, 0, 0, 0, 0⟩, by simp, by simp [deltaToTmunu_eq, t30One, t33One]⟩
 
+/-- **T13.T3** The zeroth moment and the vacuum mass drop out of `T³⁰` and `T³³`: for `|v| < 1` the result of `deltaToTmunu` is the same
+whatever `Δ00` and `m²` of each species are (the `m²Δ00` terms of the trace part cancel against those of the boosted part,
+`γ² − γ²v² − 1 = 0`).  Hence `Δ00` carries NO information on whether there is an out-of-equilibrium contribution to the conserved
+components (a shortcut "`Δ00 ≡ 0` ⇒ nothing to add" is unsound: T13.T4). -/
+theorem tmunu_independent_of_Delta00_and_mass {v : ℝ} (hv : |v| < 1) (ps : List (PDelta ℝ)) (f m : PDelta ℝ → ℝ) :
+    deltaToTmunu Real.sqrt 0 1 2 3 4 v (ps.map fun p => { p with d00 := f p, msq := m p }) =
+      deltaToTmunu Real.sqrt 0 1 2 3 4 v ps := by
+  rw [deltaToTmunu_eq, deltaToTmunu_eq, List.map_map, List.map_map]
+  have hg : Real.sqrt (1 / (1 - v * v)) * Real.sqrt (1 / (1 - v * v)) * (1 - v * v) = 1 := gam_mul_self hv
+  have e1 : (t30One v ∘ fun p => { p with d00 := f p, msq := m p }) = t30One v := by
+    funext p; simp only [Function.comp, t30One]; ring
+  have e2 : (t33One v ∘ fun p => { p with d00 := f p, msq := m p }) = t33One v := by
+    funext p
+    simp only [Function.comp, t33One]
+    set g := Real.sqrt (1 / (1 - v * v)) with hgdef
+    have hg' : g * g = 1 + g * g * (v * v) := by nlinarith [hg]
+    linear_combination (p.dofs * (m p * f p) / 2 - p.dofs * (p.msq * p.d00) / 2) * hg'
+  rw [e1, e2]
+
+/-- **T13.T4** A species with `Δ00 = 0` can contribute to both conserved components (witness: `Δ02 = 1`, all other moments zero,
+`v = 3/5`): "`Δ00` vanishes" does not mean "no out-of-equilibrium part". -/
+theorem Delta00_zero_does_not_mean_equilibrium :
+    ∃ (v : ℝ) (p : PDelta ℝ), |v| < 1 ∧ p.d00 = 0 ∧
+      (deltaToTmunu Real.sqrt 0 1 2 3 4 v [p]).1 ≠ 0 ∧ (deltaToTmunu Real.sqrt 0 1 2 3 4 v [p]).2 ≠ 0 := by
+  refine ⟨3 / 5, ⟨1, 1, 0, 1, 0, 0⟩, by rw [abs_of_pos (by norm_num)]; norm_num, rfl, ?_, ?_⟩
+  all_goals
+    simp only [deltaToTmunu_eq, List.map_cons, List.map_nil, List.sum_cons, List.sum_nil, add_zero, t30One, t33One]
+    have h : Real.sqrt (1 / (1 - (3 / 5 : ℝ) * (3 / 5))) = 5 / 4 := by
+      rw [show (1 / (1 - (3 / 5 : ℝ) * (3 / 5))) = (5 / 4) ^ 2 by norm_num]
+      exact Real.sqrt_sq (by norm_num)
+    rw [h]; norm_num
+
+example : ∃ (v : ℝ) (ps : List (PDelta ℝ)), |v| < 1 ∧ ps ≠ [] ∧ ∃ p ∈ ps, p.d00 ≠ 0 ∧ p.msq ≠ 0 :=
+  ⟨1 / 2, [⟨2, 1, 1, 2, 3, 1 / 2⟩], by rw [abs_of_pos (by norm_num)]; norm_num, by simp, ⟨2, 1, 1, 2, 3, 1 / 2⟩, by simp, by norm_num, by norm_num⟩
+
 end Props.C13T
